@@ -409,6 +409,24 @@ void check_history(History const& h, Problem const& prob, OracleOpts const& opts
 
             bool errored_init = (b.status == ST_ERRORED);
 
+            // ---- C02: only an interaction emits secondaries ----
+            // "every secondary emitted by an interaction becomes exactly one
+            // track": a step that ends with anything but a physics model
+            // action (boundary, range, tracking cut of a flushed track,
+            // rejection...) had no interaction, so whatever its secondaries
+            // span still holds was emitted -- and turned into tracks -- before.
+            if (opts.c02 && !c.secondaries.empty() && !prob.is_model_action.empty()
+                && !(c.post_action < prob.is_model_action.size()
+                     && prob.is_model_action[c.post_action]))
+            {
+                out.violate("C02",
+                            "secondaries-without-interaction",
+                            "secondaries-without-interaction",
+                            "a step that did not end in an interaction reports "
+                                + std::to_string(c.secondaries.size())
+                                + " secondaries (they become tracks): " + fmt_slot(f, s, c));
+            }
+
             // ---- C05: continuity with previous step of this track ----
             if (opts.c05)
             {
